@@ -525,6 +525,60 @@ def m_property(ctx, interp, args, kwargs):
     return PyProperty(args[0])
 
 
+class CachedCallable:
+    """functools.lru_cache / cache: hidden state that outlives the call.  A call is modelled as a miss
+    (the function runs) plus a recorded 'cache-store' effect; whether an earlier entry with an
+    ==-equal key could be returned instead is the harness's question (typed=False conflates 1, 1.0, True)."""
+
+    def __init__(self, fn, typed):
+        self.fn = fn
+        self.typed = typed
+
+    def pysym_call(self, ctx, interp, args, kwargs):
+        ctx.effect("cache-store", self, "typed=%s" % self.typed)
+        ctx.recorded.append(("cache_call", self.typed))
+        ctx.note("model: functools cache wrapper -- call modelled as a miss, store recorded as a persistent effect")
+        return interp.call(self.fn, args, kwargs)
+
+    def pysym_getattr(self, ctx, interp, name):
+        if name in ("__wrapped__",):
+            return self.fn
+        if name in ("__name__", "__qualname__", "__doc__", "__module__", "__dict__", "__annotations__"):
+            try:
+                return interp.getattr(self.fn, name)
+            except Exception:
+                return None
+        raise SymRaise(AttributeError(name))
+
+
+class _CacheDecorator:
+    def __init__(self, typed):
+        self.typed = typed
+
+    def pysym_call(self, ctx, interp, args, kwargs):
+        return CachedCallable(args[0], self.typed)
+
+
+def m_lru_cache(ctx, interp, args, kwargs):
+    typed = bool(kwargs.get("typed", args[1] if len(args) > 1 else False))
+    if args and not isinstance(args[0], (int, type(None))) and not kwargs:
+        return CachedCallable(args[0], False)      # @lru_cache without parentheses
+    return _CacheDecorator(typed)
+
+
+def m_cache(ctx, interp, args, kwargs):
+    return CachedCallable(args[0], False)
+
+
+class _Identity:
+    def pysym_call(self, ctx, interp, args, kwargs):
+        return args[0]
+
+
+def m_wraps(ctx, interp, args, kwargs):
+    return _Identity()
+
+
 def m_staticmethod(ctx, interp, args, kwargs):
     from .interp import PyStatic
     return PyStatic(args[0])
@@ -791,7 +845,7 @@ def _native_table():
         any: m_any, all: m_all, min: _minmax(True), max: _minmax(False), property: m_property,
         compile: m_compile, callable: m_callable, staticmethod: m_staticmethod, round: m_round, ord: m_ord, chr: m_chr,
         reversed: m_reversed, frozenset: m_set,
-        functools.partial: m_partial, itertools.accumulate: m_accumulate, itertools.repeat: m_repeat,
+        functools.partial: m_partial, functools.lru_cache: m_lru_cache, functools.cache: m_cache, functools.wraps: m_wraps, itertools.accumulate: m_accumulate, itertools.repeat: m_repeat,
         math.floor: m_floor, math.isfinite: m_isfinite, math.log: m_log, math.sqrt: m_sqrt,
         _bisect_mod.bisect: m_bisect_right, _bisect_mod.bisect_right: m_bisect_right,
         _bisect_mod.bisect_left: m_bisect_left,
